@@ -121,6 +121,11 @@ func Scenarios(prop string) []gx.Sc {
 	}
 	if prop == "C18" {
 		out = append(out, gx.Sc{Name: "prod?rm=1&nm=2&icpt=2&icptpanic=1&faults=" + Faults + "&gates=" + Gates, Q: 2, T: 3})
+		// the panicking interceptor in the middle and at the end of a longer chain (the ones before it must not run again,
+		// the ones after it must still run)
+		out = append(out, gx.Sc{Name: "prod?rm=1&nm=2&icpt=4&icptpanic=3&faults=" + Faults + "&gates=" + Gates, Q: 1, T: 2})
+		out = append(out, gx.Sc{Name: "prod?rm=1&nm=2&icpt=3&icptpanic=2&faults=" + Faults + "&gates=" + Gates, Q: 1, T: 2})
+		out = append(out, gx.Sc{Name: "prod?rm=1&nm=1&icpt=3&icptpanic=3&faults=" + Faults + "&gates=" + Gates, Q: 1, T: 2})
 	}
 	return out
 }
